@@ -944,6 +944,17 @@ func e2eCorpus(wr *gal.Writer, w *e2eWorld, cli int) {
 	c("unknown mutation type", e2eCfg{Packages: base, Paths: []mut{{Type: "chmod", Path: "/etc", Perm: 0o700}}})
 	c("nothing declared", e2eCfg{Packages: withPw})
 	c("groups only, no group file shipped", e2eCfg{Packages: base, Groups: []cgroup{{Name: "g", GID: 5, Members: []string{"a"}}}})
+	c("configured groups colliding with package-provided entries: same name other gid, same gid other name, same both (seeded C13-6), twice the same", e2eCfg{Packages: withPw,
+		Users: []cuser{{Name: "web", UID: 1001}},
+		Groups: []cgroup{{Name: "bin", GID: 7, Members: []string{"web"}}, {Name: "binaries", GID: 1}, {Name: "bin", GID: 1, Members: []string{"web"}}, {Name: "nogroup", GID: 65533}, {Name: "g", GID: 5}, {Name: "g", GID: 5}}})
+	c("shell with a newline: the image's passwd gains a uid-0 user nobody configured (C13-F5)", e2eCfg{Packages: base,
+		Users: []cuser{{Name: "app", UID: 1000, Shell: "/bin/sh\nroot2:x:0:0::/root:/bin/sh"}}})
+	c("user name with a colon: the image's passwd cannot be read (C13-F5)", e2eCfg{Packages: withPw, Users: []cuser{{Name: "a:b", UID: 1000, Home: "/home/ab"}}, RunAs: "svc"})
+	c("permissions entries before later mutations of the same nodes: the list is applied in order (class of seeded C13-5)", e2eCfg{Packages: base,
+		Paths: []mut{{Type: "permissions", Path: "/usr/lib/app", Perm: 0o700, UID: 5, GID: 5}, {Type: "directory", Path: "/usr/lib/app", Perm: 0o755},
+			{Type: "permissions", Path: "/usr/lib/app/sub/deep/f", Perm: 0o600, UID: 9, GID: 9}, {Type: "directory", Path: "/usr/lib/app/sub", Perm: 0o750, UID: 1, GID: 2, Recursive: true},
+			{Type: "permissions", Path: "/etc/motd", Perm: 0o400, UID: 9, GID: 9}, {Type: "hardlink", Path: "/srv/motd", Source: "/etc/motd", Perm: 0o644, UID: 1, GID: 1}}})
+	c("empty-file with a trailing slash (C13-F6)", e2eCfg{Packages: base, Paths: []mut{{Type: "empty-file", Path: "/srv/keep/", Perm: 0o640, UID: 5, GID: 6}}})
 	c("home with a trailing slash and a mutation below it", e2eCfg{Packages: base, Users: []cuser{{Name: "ts", UID: 5, GID: u32(6), Home: "/srv/ts/"}},
 		Paths: []mut{{Type: "directory", Path: "/srv/ts/d", Perm: 0o700, UID: 5, GID: 6}}})
 }
